@@ -235,9 +235,13 @@ func (e *Engine) findAllIndicesLoop(haystack []byte, n int, results [][2]int) []
 			} else {
 				matchStart := e.reverseDFA.SearchReverse(state.revDFACache, haystack, pos, matchEnd)
 				if matchStart < 0 {
-					break
+					// The forward DFA found a match, so a negative start only means
+					// that the reverse DFA gave up (state or determinisation limit):
+					// let the NFA engine answer for this position.
+					start, end, found = state.pikevm.SearchAt(haystack, pos)
+				} else {
+					start, end, found = matchStart, matchEnd, true
 				}
-				start, end, found = matchStart, matchEnd, true
 			}
 		} else {
 			start, end, found = e.findIndicesAtWithState(haystack, pos, state)
@@ -330,9 +334,13 @@ func (e *Engine) Count(haystack []byte, n int) int {
 			} else {
 				matchStart := e.reverseDFA.SearchReverse(state.revDFACache, haystack, pos, matchEnd)
 				if matchStart < 0 {
-					break
+					// The forward DFA found a match, so a negative start only means
+					// that the reverse DFA gave up (state or determinisation limit):
+					// let the NFA engine answer for this position.
+					start, end, found = state.pikevm.SearchAt(haystack, pos)
+				} else {
+					start, end, found = matchStart, matchEnd, true
 				}
-				start, end, found = matchStart, matchEnd, true
 			}
 		} else {
 			start, end, found = e.findIndicesAtWithState(haystack, pos, state)
